@@ -30,7 +30,7 @@ VALUES = {
     'float': [0.0, 153.0, -153.0, 0.5, -0.75, 1024.0, 2.0 ** -20, -(2.0 ** 100), 8388607.0],
 }
 UNITS = [b'FEET', b'M   ', b'S   ', b'.1IN']
-COLS = [b'MNEM', b'STAT', b'PUNI', b'VALU']
+COLS_REST = [b'STAT', b'PUNI', b'VALU']
 
 
 def cb_bytes(t, rc, size, mnem, units, payload):
@@ -72,11 +72,17 @@ def run(ctx):
     rng = ctx.subrng('c08')
     classes = ['bytes', 'u8', 'i16', 'i32', 'float']
     ntests = 0
-    configs = [('FALSE', 1, '2'), ('TRUE', 1, '3'), ('FALSE', 2, '2')] if ctx.quick else \
-              [('FALSE', 1, '3'), ('TRUE', 1, '3'), ('FALSE', 2, '2'), ('TRUE', 2, '2')]
-    for dup, ncols, maxrows in configs:
-        r, states = ctx.tlc_dump('MC_LisTable_%s_%d' % (dup, ncols), 'LisTable',
-                                 consts={'RowNames': frozenset(['R1', 'R2']), 'Classes': frozenset(classes if ncols == 1 else ['bytes', 'i16', 'float'])},
+    # row names: R1, R2 are byte strings; N0, N1, N2 the integers 0, 1, 2 and F2 the number 2.5 (a first column of numbers)
+    NAMES = {'R1': b'R1  ', 'R2': b'R2  ', 'N0': 0, 'N1': 1, 'N2': 2, 'F2': 2.5}
+    byt, num = ['R1', 'R2'], ['N0', 'N1', 'N2', 'F2']
+    configs = [('FALSE', 1, '2', byt), ('TRUE', 1, '3', byt), ('FALSE', 2, '2', byt), ('FALSE', 1, '2', num[:2] + num[3:]), ('TRUE', 1, '2', num[:2] + num[3:])] if ctx.quick else \
+              [('FALSE', 1, '3', byt), ('TRUE', 1, '3', byt), ('FALSE', 2, '2', byt), ('TRUE', 2, '2', byt), ('FALSE', 1, '3', num + ['R1']),
+               ('TRUE', 1, '3', num + ['R1'])]
+    for dup, ncols, maxrows, rownames in configs:
+        numeric = rownames != byt
+        COLS = ([b'NUMB'] if numeric else [b'MNEM']) + COLS_REST          # numbers cannot be row names under the label MNEM
+        r, states = ctx.tlc_dump('MC_LisTable_%s_%d%s' % (dup, ncols, '_num' if numeric else ''), 'LisTable',
+                                 consts={'RowNames': frozenset(rownames), 'Classes': frozenset(classes if ncols == 1 and not numeric else ['bytes', 'i16', 'float'])},
                                  cfg_consts={'NCols': str(ncols), 'MaxRows': maxrows, 'DupInStream': dup},
                                  invariants=['RoundTrip', 'NoRowLost'], defs='ASSUME EbsEven /\\ BurstsExact', deadlock=True, timeout=1500,
                                  need_actions=['AddRow', 'Write', 'ReadBlock', 'Finish'])
@@ -101,8 +107,8 @@ def run(ctx):
                     v = rng.choice(VALUES[c['cls']])
                     u = rng.choice(UNITS) if c['units'] else None
                     cells.append((c['cls'], v, u))
-                conc.append((rw['name'].encode('ascii').ljust(4), cells))
-            case = dict(rows=[(n.decode(), [(c, repr(v), u and u.decode()) for c, v, u in cs]) for n, cs in conc], dup_in_stream=dup, table=tname.decode())
+                conc.append((NAMES[rw['name']], cells))
+            case = dict(rows=[(repr(n), [(c, repr(v), u and u.decode()) for c, v, u in cs]) for n, cs in conc], dup_in_stream=dup, table=tname.decode())
             ctx.case(('table', dup, k), len(rows) >= 2)
             try:
                 if dup == 'FALSE':
@@ -113,7 +119,12 @@ def run(ctx):
                 else:
                     lr = bytes([lrtype, 0]) + cb_bytes(73, 65, 4, b'TYPE', b'    ', tname)
                     for n, cs in conc:
-                        lr += cb_bytes(0, 65, 4, COLS[0], b'    ', n)
+                        if isinstance(n, bytes):
+                            lr += cb_bytes(0, 65, 4, COLS[0], b'    ', n)
+                        elif isinstance(n, float):
+                            lr += cb_bytes(0, 68, 4, COLS[0], b'    ', RepCode.writeBytes68(n))
+                        else:
+                            lr += cb_bytes(0, 66, 1, COLS[0], b'    ', bytes([n]))
                         for ci, (cls, v, u) in enumerate(cs):
                             if cls == 'float':
                                 rc, size, pay = 68, 4, RepCode.writeBytes68(v)
@@ -138,7 +149,7 @@ def run(ctx):
                 bad = '%d rows read, specification Dedup gives %d' % (len(got_rows), len(want))
             if not bad:
                 for gr, (n, cs) in zip(got_rows, want):
-                    if gr.value != n:
+                    if gr.value != n or type(gr.value) is not type(n):
                         bad = 'row name %r expected %r' % (gr.value, n)
                         break
                     cells = list(gr.genCells())
@@ -163,7 +174,7 @@ def run(ctx):
                 bad = 'column labels %r expected %r' % (list(t.colLabels()), COLS[:1 + ncols])
             if not bad:
                 for n, cs in want:
-                    if n not in t or t[n].value != n:
+                    if isinstance(n, bytes) and (n not in t or t[n].value != n):        # (an integer key is a row position)
                         bad = 'row %r not found by name' % n
             if bad:
                 ctx.fail('LIS table: %s; case %s' % (bad, json.dumps(case)[:600]), case, sig=dict(kind='table', dup=dup))
